@@ -34,6 +34,10 @@ FAMILY = {
     'long_rule': "start: " + " | ".join(f"'k{i}' 'v{i}'" for i in range(14)) + " ;\n",
     'dot_void_fail': "start: 'a' /./ () | 'b' !() | 'c' {} 'd' ;\n",
 }
+ANTLR = {
+    'antlr_decls': "grammar Decls;\nstart: decl EOF;\ndecl: target=(name ('.' name)?) (init=('=' value))? ;\nname: 'a' | 'b';\nvalue: '1' | '2';\n",
+    'antlr_list': "grammar L;\nstart: '[' items+=item (',' items+=item)* ']' | name ;\nitem: x=name | pair=('(' start ')') ;\nname: 'a' | 'b' ;\n",
+}
 QUICK = ['directives', 'keywords', 'params', 'based', 'nomemo_override', 'eol_skipto', 'pattern_slash', 'pattern_backslash_slash', 'token_quotes', 'token_backslash', 'joins', 'named_forms',
          'lookaheads_groups', 'alerts_constants', 'typed', 'dot_void_fail', 'include']
 
@@ -149,6 +153,11 @@ def plan(tier, seed):
             for n in (2, 3):
                 obs.append(Ob(name=f'core_{nm}_L{n}', factory='vt.equiv:make_equiv', spec={'program': 'core_' + nm, 'gtext': render_grammar(rules), 'variants': ['pretty'], 'n': n},
                               params=[(f'c{i}', 0, UNI) for i in range(n)], budget={2: 120, 3: 500}[n], group='pretty-core'))
+    for nm, text in ANTLR.items():
+        for n in ((2, 3) if tier == 'quick' else (2, 3, 4)):
+            obs.append(Ob(name=f'{nm}_L{n}', factory='vt.equiv:make_equiv', spec={'program': nm, 'antlr': text, 'variants': ['pretty'], 'n': n,
+                                                                                  'warm': ['', 'a.b', 'a=1', 'a.', 'a', '[a]', '[a,b]', 'ab', '(a)', 'i a;', '[ab', 'fa.a;', 'ib=2;']},
+                          params=[(f'c{i}', 0, UNI) for i in range(n)], budget={2: 120, 3: 500, 4: 2400}[n], group='antlr'))
     for kind in ('token', 'pattern'):
         for n in ((1, 2) if tier == 'quick' else (1, 2, 3)):
             obs.append(Ob(name=f'Q_{kind}_quoting_len{n}', factory='vt.props.c13:make_quoting', spec={'kind': kind, 'n': n, 'program': kind + '-quoting'},
